@@ -1,4 +1,278 @@
-(** C04: distributed lock - hand-off, cancellation and shutdown leave no residue (placeholder, being extended). *)
+(** C04: distributed lock (kvs/distlock/kvlock.go) - hand-off, cancellation and shutdown leave
+    no residue.  Model: model/LockLTS.v; proofs: proofs/C04_Residue.v, proofs/C04_Attempts.v,
+    proofs/C01_Tokens.v, proofs/C01_Versions.v, proofs/C01_Exclusion.v.
+
+    All theorems quantify over every assignment of Lockers to providers, every trace (any number
+    of goroutines, Lockers, providers; every interleaving; cancellation and shutdown anywhere)
+    without storage faults ([no_faults]) of well-formed programs ([wf_programs]: Unlock on held
+    Lockers only), unless a theorem says it needs less. *)
 From Coq Require Import List Arith Bool NArith Lia.
-From GL Require Import model.LockLTS.
+From GL Require Import model.LockLTS proofs.C01_Exclusion proofs.C01_Tokens proofs.C01_Versions
+  proofs.C04_Residue proofs.C04_Attempts.
 Import ListNotations.
+
+(** * No residue at quiescence
+    Once every call has returned and every holder has unlocked, the lock record is gone, every
+    counter is 0 and the token of every Locker of a live provider is back. *)
+Theorem C04_quiescent_clean : forall (lp : lockerId -> provId) (tr : list label) (s : state),
+  run (init lp) tr = Some s -> no_faults lp tr -> wf_programs lp tr ->
+  (forall t, pc_of s t = Idle \/ exists r, pc_of s t = Done r) ->
+  (forall L, held (lk s L) = None) ->
+  rec s = None /\
+  (forall L, cntr (lk s L) = false) /\
+  (forall L, down s (lprov s L) = false -> token (lk s L) = true).
+Proof. exact quiescent_clean. Qed.
+Print Assumptions C04_quiescent_clean.
+
+(** the invariant behind it: a stored record is always claimed by a held Locker or by an
+    Unlock that is about to delete it *)
+Theorem C04_record_is_claimed : forall lp tr s v tn,
+  run (init lp) tr = Some s -> no_faults lp tr ->
+  rec s = Some (v, tn) ->
+  (exists L, held (lk s L) = Some tn) \/ (exists t L, pc_of s t = Unl1 L (Some tn)).
+Proof. intros lp tr s v tn Hr HF. exact (rinv_reachable lp tr s Hr HF v tn). Qed.
+Print Assumptions C04_record_is_claimed.
+
+(** non-vacuity: hand-off between two Lockers with a cancelled third attempt, a failing TryLock
+    and a shutdown of the second provider at the end; quiescent and clean *)
+Definition C04_ex_trace : list label :=
+  [ Invoke 0 (OLock 0); TakeToken 0; CheckCtx 0; StCreate 0 FOk; Return 0 RUnit;
+    Invoke 1 (OLock 1); TakeToken 1; CheckCtx 1; StCreate 1 FOk;
+    Invoke 2 (OCtx 2); TakeToken 2; CheckCtx 2; StCreate 2 FOk;
+    Invoke 3 (OTry 0); TryFail 3; Return 3 RFalse;
+    CtxDone 2; StWaitRet 2 WCtx; CheckCtx 2; PutToken 2; Return 2 (RErr ECtx);
+    Invoke 0 (OUnlock 0); StDelete 0 FOk; PutToken 0; Return 0 RUnit;
+    StWaitRet 1 WChanged; CheckCtx 1; StCreate 1 FOk; Return 1 RUnit;
+    Invoke 1 (OUnlock 1); StDelete 1 FOk; PutToken 1; Return 1 RUnit;
+    Shutdown 1; Invoke 2 (OCtx 2); TakeToken 2; Return 2 (RErr EClosed) ].
+
+Definition C04_ex_lp : lockerId -> provId := fun L => match L with 2 => 1 | _ => 0 end.
+
+Lemma C04_ex_run : exists s, run (init C04_ex_lp) C04_ex_trace = Some s.
+Proof.
+  destruct (run (init C04_ex_lp) C04_ex_trace) as [s|] eqn:Hr; [eauto|vm_compute in Hr; discriminate].
+Qed.
+
+Example C04_ex_premises :
+  no_faults C04_ex_lp C04_ex_trace /\ wf_programs C04_ex_lp C04_ex_trace.
+Proof.
+  split; [apply no_faults_b|apply wf_programs_b]; vm_compute; reflexivity.
+Qed.
+
+(** the run ends quiescent and clean; Locker 2 lost its token to the shutdown of provider 1 *)
+Example C04_ex_final :
+  forall s, run (init C04_ex_lp) C04_ex_trace = Some s ->
+  rec s = None /\ token (lk s 0) = true /\ token (lk s 1) = true /\ token (lk s 2) = false /\
+  down s 1 = true /\ pc_of s 0 = Idle /\ pc_of s 1 = Idle /\ pc_of s 2 = Idle /\ pc_of s 3 = Idle.
+Proof. intros s Hr. vm_compute in Hr. injection Hr as <-. vm_compute. repeat split. Qed.
+
+(** * No deadlock, no lost wake-up *)
+
+(** If no internal step (a step the implementation takes by itself: local action, un-faulted
+    storage call, return) is enabled anywhere and no Locker is held, then no work remains - every
+    thread is idle.  Read contrapositively: whenever some call is in progress and nobody holds the
+    lock, some internal step is enabled.  (Stated in this direction because the model has
+    infinitely many threads and the logic no excluded middle.) *)
+Theorem C04_no_deadlock : forall lp tr s,
+  run (init lp) tr = Some s -> no_faults lp tr -> wf_programs lp tr ->
+  (forall l, internal l = true -> step s l = None) ->
+  (forall L, held (lk s L) = None) ->
+  forall t, pc_of s t = Idle.
+Proof. exact no_deadlock. Qed.
+Print Assumptions C04_no_deadlock.
+
+(** per thread: outside the two waits a thread always has an enabled internal step *)
+Theorem C04_running_thread_enabled : forall lp tr s t,
+  run (init lp) tr = Some s -> wf_programs lp tr ->
+  match pc_of s t with
+  | Idle | LocalWait _ _ | WaitVer _ _ _ => True
+  | _ => exists l, internal l = true /\ step s l <> None
+  end.
+Proof. intros lp tr s t Hr HW. apply running_thread_enabled. eapply tinv_reachable; eauto. Qed.
+Print Assumptions C04_running_thread_enabled.
+
+(** the storage wait: enabled iff the record is gone, has another version, or the context is done *)
+Theorem C04_waitver_enabled_iff : forall s t L k v, pc_of s t = WaitVer L k v ->
+  ((exists w, step s (StWaitRet t w) <> None)
+   <-> (rec s = None \/ (exists v' o, rec s = Some (v', o) /\ v' <> v) \/ ctx_of s t = true)).
+Proof. exact waitver_enabled_iff. Qed.
+Print Assumptions C04_waitver_enabled_iff.
+
+(** the local wait: enabled iff not [blockedb] (token present, provider down, or context done);
+    [blockedb] is what the correspondence run compares with the goroutines the implementation has parked *)
+Theorem C04_localwait_enabled_iff : forall s t L k, pc_of s t = LocalWait L k ->
+  ((exists l, In l [TakeToken t; TryFail t; Bail t BCtx; Bail t BClosed] /\ step s l <> None)
+   <-> blockedb s t = false).
+Proof. exact localwait_enabled_iff. Qed.
+Print Assumptions C04_localwait_enabled_iff.
+
+Theorem C04_waitver_blocked_iff : forall s t L k v, pc_of s t = WaitVer L k v ->
+  ((exists w, step s (StWaitRet t w) <> None) <-> blockedb s t = false).
+Proof. exact waitver_blocked_iff. Qed.
+Print Assumptions C04_waitver_blocked_iff.
+
+(** a wake-up is never lost: once a storage waiter can return it stays able to, whatever other
+    steps (faults included) happen first - a version never comes back *)
+Theorem C04_wakeup_persistent : forall lp tr s t L k v l s',
+  run (init lp) tr = Some s ->
+  pc_of s t = WaitVer L k v ->
+  step s (StWaitRet t WChanged) <> None ->
+  step s l = Some s' -> (forall w, l <> StWaitRet t w) ->
+  pc_of s' t = WaitVer L k v /\ step s' (StWaitRet t WChanged) <> None.
+Proof. exact wakeup_persistent. Qed.
+Print Assumptions C04_wakeup_persistent.
+
+(** * Hand-off reaches everyone - PARTIAL
+
+    Full statement (DESIGN 5.4, not proved): with n threads still to be served and nobody
+    cancelling, every maximal run of internal steps from a state without holder makes one of them
+    a holder within a bounded number of internal steps (ranking on threads not yet served, then
+    pcs).  What is proved instead is the safety core of that argument, for every reachable state:
+    (a) if work remains and nobody holds, some internal step is enabled ([C04_no_deadlock]);
+    (b) a thread outside the two waits is always enabled; (c) the two waits are enabled exactly
+    when token / record say so; (d) an enabled storage waiter stays enabled until it moves.
+    Missing: the termination measure showing that internal steps cannot go on forever without
+    producing a holder (the retry loop Create -> ErrExist -> Wait -> Create repeats only when the
+    record changed in between, which needs a progress measure over the whole thread population). *)
+Theorem C04_handoff_reaches_everyone_partial : forall lp tr s,
+  run (init lp) tr = Some s -> no_faults lp tr -> wf_programs lp tr ->
+  (* (a) *)
+  ((forall l, internal l = true -> step s l = None) -> (forall L, held (lk s L) = None) ->
+   forall t, pc_of s t = Idle) /\
+  (* (b) *)
+  (forall t, match pc_of s t with
+             | Idle | LocalWait _ _ | WaitVer _ _ _ => True
+             | _ => exists l, internal l = true /\ step s l <> None
+             end) /\
+  (* (c) *)
+  (forall t L k v, pc_of s t = WaitVer L k v ->
+     ((exists w, step s (StWaitRet t w) <> None) <-> blockedb s t = false)) /\
+  (forall t L k, pc_of s t = LocalWait L k ->
+     ((exists l, In l [TakeToken t; TryFail t; Bail t BCtx; Bail t BClosed] /\ step s l <> None)
+      <-> blockedb s t = false)) /\
+  (* (d) *)
+  (forall t L k v l s', pc_of s t = WaitVer L k v -> step s (StWaitRet t WChanged) <> None ->
+     step s l = Some s' -> (forall w, l <> StWaitRet t w) ->
+     pc_of s' t = WaitVer L k v /\ step s' (StWaitRet t WChanged) <> None).
+Proof.
+  intros lp tr s Hr HF HW. repeat split.
+  - exact (no_deadlock lp tr s Hr HF HW).
+  - intros t. apply running_thread_enabled. eapply tinv_reachable; eauto.
+  - apply (waitver_blocked_iff s t L k v H).
+  - apply (waitver_blocked_iff s t L k v H).
+  - apply (localwait_enabled_iff s t L k H).
+  - apply (localwait_enabled_iff s t L k H).
+  - eapply wakeup_persistent; eauto.
+  - eapply wakeup_persistent; eauto.
+Qed.
+Print Assumptions C04_handoff_reaches_everyone_partial.
+
+(** * Cancellation and failed TryLock *)
+
+(** a LockWithCtx returns nil, or the error of its context and then the context is really done,
+    or ErrClosed and then its provider is really shut down *)
+Theorem C04_cancel_returns_ctx_err : forall lp tr0 t L tr s' r,
+  run (init lp) (tr0 ++ Invoke t (OCtx L) :: tr) = Some s' ->
+  no_faults lp (tr0 ++ Invoke t (OCtx L) :: tr) -> wf_programs lp (tr0 ++ Invoke t (OCtx L) :: tr) ->
+  (forall r0, ~ In (Return t r0) tr) ->
+  pc_of s' t = Done r ->
+  r = RNil \/ (r = RErr ECtx /\ ctx_of s' t = true) \/ (r = RErr EClosed /\ down s' (lprov s' L) = true).
+Proof. exact cancel_returns_ctx_err. Qed.
+Print Assumptions C04_cancel_returns_ctx_err.
+
+Theorem C04_trylock_fail_returns_false : forall lp tr0 t L tr s' r,
+  run (init lp) (tr0 ++ Invoke t (OTry L) :: tr) = Some s' ->
+  no_faults lp (tr0 ++ Invoke t (OTry L) :: tr) -> wf_programs lp (tr0 ++ Invoke t (OTry L) :: tr) ->
+  (forall r0, ~ In (Return t r0) tr) ->
+  pc_of s' t = Done r -> r = RTrue \/ r = RFalse.
+Proof. exact trylock_fail_returns_false. Qed.
+Print Assumptions C04_trylock_fail_returns_false.
+
+Theorem C04_lock_returns_unit : forall lp tr0 t L tr s' r,
+  run (init lp) (tr0 ++ Invoke t (OLock L) :: tr) = Some s' ->
+  no_faults lp (tr0 ++ Invoke t (OLock L) :: tr) -> wf_programs lp (tr0 ++ Invoke t (OLock L) :: tr) ->
+  (forall r0, ~ In (Return t r0) tr) ->
+  pc_of s' t = Done r -> r = RUnit \/ (r = RPanic /\ down s' (lprov s' L) = true).
+Proof. exact lock_returns_unit. Qed.
+Print Assumptions C04_lock_returns_unit.
+
+(** a cancelled attempt does not wait: with its context done a LockWithCtx is never blocked *)
+Theorem C04_cancelled_never_blocked : forall s t L, ctx_of s t = true ->
+  (pc_of s t = LocalWait L KCtx \/ exists v, pc_of s t = WaitVer L KCtx v) -> blockedb s t = false.
+Proof.
+  intros s t L Hc [Hp|[v Hp]]; unfold blockedb; rewrite Hp, Hc; cbn.
+  - rewrite !orb_true_r. reflexivity.
+  - destruct (rec s) as [[v' o]|]; rewrite ?orb_true_r; reflexivity.
+Qed.
+Print Assumptions C04_cancelled_never_blocked.
+
+(** the failure exit puts the Locker back exactly: token present, counter 0, not held, nobody
+    inside; the record is not touched *)
+Theorem C04_failure_exit_restores : forall lp tr s t L r s',
+  run (init lp) tr = Some s -> wf_programs lp tr ->
+  pc_of s t = Failing L r -> step s (PutToken t) = Some s' ->
+  pc_of s' t = Done r /\ rec s' = rec s /\
+  token (lk s' L) = true /\ cntr (lk s' L) = false /\ held (lk s' L) = None /\
+  forall t0, userb (pc_of s' t0) L = false.
+Proof.
+  intros lp tr s t L r s' Hr HW. apply failure_exit_restores. eapply tinv_reachable; eauto.
+Qed.
+Print Assumptions C04_failure_exit_restores.
+
+(** leaving the select without the token (context done, provider down, TryLock on a taken
+    Locker) touches neither the Lockers nor the record *)
+Theorem C04_local_exit_untouched : forall s t L k l s',
+  pc_of s t = LocalWait L k -> In l [TryFail t; Bail t BCtx; Bail t BClosed] ->
+  step s l = Some s' -> lk s' = lk s /\ rec s' = rec s /\ exists r, pc_of s' t = Done r.
+Proof. exact local_exit_untouched. Qed.
+Print Assumptions C04_local_exit_untouched.
+
+(** non-vacuity for the three outcome theorems: in [C04_ex_trace] the LockWithCtx of thread 2 is
+    cancelled in the storage wait and is about to return the context error; the TryLock of
+    thread 3 is about to return false *)
+Example C04_ex_cancel :
+  exists s', run (init C04_ex_lp) (firstn 20 C04_ex_trace) = Some s' /\
+             pc_of s' 2 = Done (RErr ECtx) /\ ctx_of s' 2 = true /\ token (lk s' 2) = true /\ cntr (lk s' 2) = false.
+Proof.
+  destruct (run (init C04_ex_lp) (firstn 20 C04_ex_trace)) as [s|] eqn:Hr; [|vm_compute in Hr; discriminate].
+  exists s. split; [reflexivity|]. vm_compute in Hr. injection Hr as <-. vm_compute. repeat split.
+Qed.
+
+Example C04_ex_try :
+  exists s', run (init C04_ex_lp) (firstn 15 C04_ex_trace) = Some s' /\ pc_of s' 3 = Done RFalse.
+Proof.
+  destruct (run (init C04_ex_lp) (firstn 15 C04_ex_trace)) as [s|] eqn:Hr; [|vm_compute in Hr; discriminate].
+  exists s. split; [reflexivity|]. vm_compute in Hr. injection Hr as <-. vm_compute. reflexivity.
+Qed.
+
+(** * After Shutdown *)
+
+(** An attempt that is in the select of lockInternal / tryLockInternal while its provider is shut
+    down - every attempt invoked after the Shutdown, and every attempt parked in the local wait at
+    the Shutdown - never gets past the select: it never issues a Create, never acquires, and ends
+    with ErrClosed (Lock: panic, TryLock: false), or the context error if its context is done too.
+    Holds for every continuation (faults included). *)
+Theorem C04_after_shutdown_no_acquire : forall tr s s' t L k,
+  down s (lprov s L) = true -> pc_of s t = LocalWait L k ->
+  run s tr = Some s' -> (forall r, ~ In (Return t r) tr) ->
+  pc_of s' t = LocalWait L k \/ pc_of s' t = Done (fail_result k EClosed)
+  \/ pc_of s' t = Done (RErr ECtx) \/ pc_of s' t = Done RPanic.
+Proof. exact after_shutdown_no_acquire. Qed.
+Print Assumptions C04_after_shutdown_no_acquire.
+
+Theorem C04_invoked_after_shutdown : forall s t o L k s1 tr s',
+  down s (lprov s L) = true -> op_acquire o = Some (L, k) ->
+  step s (Invoke t o) = Some s1 -> run s1 tr = Some s' -> (forall r, ~ In (Return t r) tr) ->
+  pc_of s' t = LocalWait L k \/ pc_of s' t = Done (fail_result k EClosed)
+  \/ pc_of s' t = Done (RErr ECtx) \/ pc_of s' t = Done RPanic.
+Proof. exact invoked_after_shutdown. Qed.
+Print Assumptions C04_invoked_after_shutdown.
+
+(** the interpretation fixed in DESIGN section 4: an attempt that has already passed the select
+    when Shutdown happens may still acquire (the code checks [done] only in the select and right
+    after taking the token); this is not reported as a violation *)
+Theorem C04_shutdown_inflight_may_acquire :
+  exists s, run (init (fun _ => 0)) inflight_trace = Some s /\
+            down s 0 = true /\ held (lk s 0) = Some 1%N.
+Proof. exact shutdown_inflight_may_acquire. Qed.
+Print Assumptions C04_shutdown_inflight_may_acquire.
